@@ -57,6 +57,17 @@ fn scenarios() -> Vec<Scenario> {
             old: vec![],
             new: vec![REvent::AddUserAdmin { group: 0, key: 2, enabled: false }],
         },
+        // the attacker C is a FORMER administrator: the group was last written while C was one, C was disabled
+        // afterwards; whatever C signs after (or before) its tenure must be judged at the entry's own date
+        Scenario {
+            name: "S4-former-admin-C",
+            template: vec![(vec![("ns.P", true, false)], vec![1], vec![])],
+            old: vec![REvent::AddAdmin { key: 2, enabled: true }, REvent::AddRight { group: 0, entity: "ns.Q".into(), own: true, all: false }],
+            new: vec![
+                REvent::AddGroupWith { entity: "ns.Q".into(), own: true, all: false, key: 1 },
+                REvent::AddAdmin { key: 2, enabled: false },
+            ],
+        },
     ]
 }
 
@@ -771,7 +782,7 @@ pub fn run(args: &Args) -> i32 {
         prop: "C07",
         level: "model_checking",
         rule: "3 scenarios (victim's earlier definition, sender's richer one) x victim {has earlier version, never saw the room} x attacker {member, outsider} x every single transformation of the honest export (about 45 operators x dates x lists) delivered through the real signature check and add_room_node, plus 12 delivery orders/multiplicities of honest exports per scenario; states = distinct resulting decision matrices; non-trivial = distinct (operator, list, attacker, victim kind, verdict)".into(),
-        bounds: json!({"scenarios": 3, "attackers": 2, "victims": 2, "compositions": args.tier.pick("single transformations", "single transformations + every pair of individually clean ones")}),
+        bounds: json!({"scenarios": scenarios().len(), "attackers": 2, "victims": 2, "compositions": args.tier.pick("single transformations", "single transformations + every pair of individually clean ones")}),
         assumptions: vec![
             "member and outsider attackers are never entitled to add anything, so whatever they sign is never legitimate; honest entries are legitimate".into(),
             "resulting decisions are read from the RoomModified event the victim emits".into(),
